@@ -344,6 +344,10 @@ pub fn run_history_b2(cfg: Cfg, ops: &[Op], late: bool) -> Option<(usize, Findin
                     if overwrite || written.contains(&k) { c.sync(); written.clear(); sync_after = overwrite; }
                     if !overwrite { written.push(k); }
                 }
+                // a bounded cache selects victims BY KEY: the old node of an invalidated key whose removal record is still queued would
+                // resolve to the re-inserted (newer, not yet admitted) entry and remove it -- the same family; unbounded caches
+                // never select victims, there the re-insert may stay queued
+                Op::Invalidate(k) => { if cfg.cap.is_some() { written.push(k); } }
                 Op::Sync => { written.clear(); }
                 _ => {}
             }
